@@ -286,8 +286,12 @@ Resume ==
     /\ hist' = Log([a |-> "resume"])
     /\ UNCHANGED <<durable, sigma, subs, invLog, snap, ncrash>>
 
+\* Simulator.from_json(sim.to_json()) can be called wherever run() is not executing: while stopped at
+\* an interruption, before the first run(), and after run() has returned.
+BeforeFirstRun == pc = "Loop" /\ t = 0 /\ evHist = <<>> /\ schedHist = <<>> /\ ncrash = 0 /\ ~resumed
 DumpLoad ==
-    /\ pc = "Stopped" /\ AllowDump
+    /\ AllowDump
+    /\ pc = "Stopped" \/ pc = "Done" \/ BeforeFirstRun
     /\ IF hist = <<>> THEN TRUE ELSE hist[Len(hist)].a # "dumpload"   \* at most one per stop
     /\ hist' = Log([a |-> "dumpload"])
     /\ UNCHANGED <<pc, durable, sigma, ghost>>
